@@ -6,3 +6,4 @@ INFO = {'not_decided': ['"every call is answered" (liveness)', 'that the child p
                         'bytecode-level (intra-line) interleavings'],
         'stated_lemmas': ['thread-modular soundness: the rely transitions are exactly the effects of the same methods run by other threads'],
         'trusted': []}
+import props._all  # noqa
